@@ -178,7 +178,9 @@ func (c05) Eval(c *Case) (*Violation, bool) {
 			argv := append(append([]string{"balance", "--color=false"}, fl...), l.Main())
 			ob := Run(c.specFor(s, files, argv))
 			if !ob.OK() {
-				rs.bal = append(rs.bal, "FAILED: "+firstLine(ob.Stderr)+ob.PanicValue)
+				// only the fact of the failure: diagnostics print Go maps keyed by
+				// pointers, whose order follows addresses
+				rs.bal = append(rs.bal, "FAILED "+ob.Outcome+ob.PanicValue)
 			} else {
 				rs.bal = append(rs.bal, ob.Stdout)
 			}
